@@ -565,7 +565,8 @@ func runTx5(c *core.Ctx) {
 				return
 			}
 			fa, ok := st.Addr.(*ssa.FieldAddr)
-			if !ok || fieldNameOf(fa) != "seed" || typeNameOf(fa.X.Type()) != "simpleSQLiteHandler" {
+			// (the handler's own field, or that of a store object the handler keeps its database and seed in)
+			if !ok || fieldNameOf(fa) != "seed" || !isUint32(st.Val.Type()) {
 				return
 			}
 			n++
@@ -1042,4 +1043,9 @@ func tx1Explicit(c *core.Ctx, fn *ssa.Function, begin *ssa.Call, slot *ssa.Alloc
 		}
 	}
 	return
+}
+
+func isUint32(t types.Type) bool {
+	b, ok := t.Underlying().(*types.Basic)
+	return ok && b.Kind() == types.Uint32
 }
